@@ -345,3 +345,69 @@ def c13_scenario(S, fmt, ch, rate, rng, count, ids, payloads, late=False, shortb
                 S.add("chget 1 0 %d" % rng.choice([0, 1, 3]))
             S.add("chget 1 0 -1", "chnext 1 0")
     S.add("chnext 1 0", "chget 1 0 -1", "seek 1 0 0", "read 1 %s f 3" % T, "close 1")
+
+
+def c18_scenario(S, fmt, ch, rate, rng, N, layout, nparts, rdwr=False):
+    """float/double (grid k/1024, dyadic logging) or integer PCM content; PEAK queries after re-open; CALC_* at several read positions"""
+    s = scen.sub(fmt)
+    T = "f" if s == 6 else "d" if s == 7 else ("s" if scen.SUB_WIDTH.get(s, 16) <= 16 else "i")
+    S.scn(fmt="0x%x" % fmt, ch=ch, T=T, N=N, kind="c18", layout=layout, fmode=1)
+    S.add("file 1 new", "open 0 vio w 1 %d %d %d" % (fmt, ch, rate))
+    seed = rng.randint(1, 10 ** 6)
+    # explicit values: a base of small magnitudes plus maxima placed by 'layout' (first / last frame, call boundary, ties)
+    import struct
+    vals = []
+    for i in range(N * ch):
+        k = rng.randint(-300, 300)
+        vals.append(k)
+    parts = partitions(N, rng, nparts)[-1]
+    bounds, acc = [], 0
+    for p in parts:
+        acc += p
+        bounds.append(acc)
+    for c in range(ch):
+        big = 1023 - c * 3
+        if layout == "first":
+            vals[c] = big
+        elif layout == "last":
+            vals[(N - 1) * ch + c] = -big
+        elif layout == "boundary" and len(bounds) > 1:
+            vals[(bounds[0] - 1) * ch + c] = big
+            vals[min(bounds[0], N - 1) * ch + c] = -big          # tie on both sides of a call boundary: first one wins
+        elif layout == "ties":
+            for f in (N // 3, N // 2, N - 1):
+                vals[f * ch + c] = big if f % 2 else -big
+        elif layout == "zero":
+            pass
+    if layout == "zero":
+        vals = [0] * (N * ch)
+
+    def tok(k):
+        if T == "f":
+            return str(struct.unpack("<i", struct.pack("<f", k / 1024.0))[0])
+        if T == "d":
+            b = struct.unpack("<q", struct.pack("<d", k / 1024.0))[0]
+            hi, lo = b >> 32, b & 0xFFFFFFFF
+            return "%d:%d" % (hi, lo)
+        w = scen.SUB_WIDTH.get(s, 16)
+        tb = 16 if T == "s" else 32
+        return str(k * (1 << (tb - 11)))        # 11 significant bits, low bits zero: exact in every PCM width >= 11... 8 bit handled by width below
+    if T in "si" and scen.SUB_WIDTH.get(s, 16) == 8:
+        tokf = lambda k: str((max(-127, min(127, k // 9))) * 256) if T == "s" else str((max(-127, min(127, k // 9))) * (1 << 24))
+    else:
+        tokf = tok
+    off = 0
+    for p in parts:
+        S.add("write 0 %s f %d %s" % (T, p, " ".join(tokf(v) for v in vals[off * ch:(off + p) * ch])))
+        off += p
+    S.add("close 0")
+    S.add("open 1 vio %s 1 %d %d %d" % ("rw" if rdwr else "r", fmt if (scen.major(fmt) == scen.RAW or rdwr) else 0, ch, rate))
+    S.add("peakq 1", "calc 1 GET_SIGNAL_MAX", "calc 1 GET_MAX_ALL_CHANNELS")
+    # the model must know the content under the caller type: one full read first
+    S.add("read 1 %s f %d" % (T, N + 2), "seek 1 0 %d" % (16 if rdwr else 0))
+    for pos in (0, N // 2, N):
+        S.add("seek 1 %d %d" % (pos, 16 if rdwr else 0))
+        for nm in ("CALC_SIGNAL_MAX", "CALC_NORM_SIGNAL_MAX", "CALC_MAX_ALL_CHANNELS", "CALC_NORM_MAX_ALL_CHANNELS"):
+            S.add("calc 1 %s" % nm)
+        S.add("read 1 %s f 2" % T)
+    S.add("cmd 1 SET_NORM_DOUBLE 0", "calc 1 CALC_NORM_SIGNAL_MAX", "cmd 1 GET_NORM_DOUBLE 0", "close 1")
